@@ -110,11 +110,13 @@ Definition realDyadicLazy (c a b : nat) (v0 : A) (f1 : unit -> A * A) (f2 : unit
   end.
 
 (* ------------------------------------------------------------ storage *)
-(* func (a ptr-Real64) SET(b *Real64): the body of Set with a typed operand *)
+(* func (a ptr-Real64) SET(b *Real64): the body of Set with a typed operand
+   HEAD d9fca78: a.Value = b.GetFloat64(); a.Alloc(b.GetN(), b.GetOrder()); a.Order = b.GetOrder() — Alloc sees the
+   receiver's OLD order *)
 Definition SET (c b : nat) (s : St) : res St :=
   let rb := s b in
   let r0 := s c in
-  let r1 := mkReg (rk r0) (rndk r32 (rk r0) (rval rb)) (rorder rb) (rn r0) (rderiv r0) (rhess r0) in
+  let r1 := mkReg (rk r0) (rndk r32 (rk r0) (rval rb)) (rorder r0) (rn r0) (rderiv r0) (rhess r0) in
   let r2 := alloc F r1 (rn rb) (rorder rb) in
   let n := rn rb in
   if 1 <=? rorder r2 then
@@ -199,9 +201,15 @@ Definition MIN (c a b : nat) (s : St) : res St :=
 Definition MAX (c a b : nat) (s : St) : res St :=
   let k := rk (s c) in
   if fltb F (getk k (rval (s b))) (getk k (rval (s a))) then SET c a s else SET c b s.
-(* func (c ptr-Real64) ABS(a ptr-Real64) { if c.Sign() == -1 { c.NEG(a) } else { c.SET(a) } } *)
+(* HEAD 2fc8894: func (c ptr-Real64) ABS(a ptr-Real64) { switch a.Sign() { case -1: c.NEG(a); case 0: c.Reset(); case 1: c.SET(a) } }
+   a.Sign() is the lower-case (generic) method of the operand, not SIGN — the very same method object the generic Abs
+   reaches through the ConstScalar interface — and c.Reset() has no twin: both are modelled by the functions C01 uses for them
+   (sign_of of the stored value; C09/ProofsS.Sign_is_sign_of_stored relates it to the predicate model g_sign) *)
 Definition ABS (c a : nat) (s : St) : res St :=
-  if Z.eqb (g_sign s c) (-1) then NEG c a s else SET c a s.
+  let sg := sign_of F (rval (s a)) in
+  if Z.eqb sg (-1) then NEG c a s
+  else if Z.eqb sg 0 then do_reset F c s
+  else SET c a s.
 
 (* LOGADD(a, b, t): if a.GREATER(b) swap; if IsInf(a,0) { c.SET(b) } else t.SUB(a,b); t.EXP(t); t.LOG1P(t); c.ADD(t,b) *)
 Definition LOGADD (c a b t : nat) (s : St) : res St :=
